@@ -277,14 +277,28 @@ func depsStream(c *Ctx) {
 		curDeps = d
 		rr := r.Fork()
 		done := make(chan string, nroots)
+		// the contexts handed to CtxDeps/SerialCtxDeps by the roots: none of the properties lets a cancelled context change
+		// what the Deps family waits for or reports, so some roots run with a context that is already cancelled, or that is
+		// cancelled while their dependencies are held in flight
+		cancelMode := r.Intn(4) // 0,1: background; 2: cancelled before the start; 3: cancelled a moment after
 		for ri := 0; ri < nroots; ri++ {
 			owner := fmt.Sprintf("r%d", ri)
+			ctx := context.Background()
+			if cancelMode >= 2 && ri%2 == 0 {
+				cctx, cancel := context.WithCancel(ctx)
+				ctx = cctx
+				if cancelMode == 2 {
+					cancel()
+				} else {
+					go func() { time.Sleep(3 * time.Millisecond); cancel() }()
+				}
+			}
 			go func() {
 				defer func() {
 					recover()
 					done <- owner
 				}()
-				d.runBody(owner, context.Background())
+				d.runBody(owner, ctx)
 			}()
 		}
 		finished := 0
